@@ -94,9 +94,9 @@ class C19(PropBase):
                    "file contents are what std::fs returns after flush() (no page-cache loss model)"]
     trusted_extra = ["the harness's own directory listing and index decoding used for the dumps",
                      "the line codec model of C18 (Model/MetricLine.v), shared"]
-    partial_note = ("see DESIGN: the theorems cover the writer's index invariant and the searches on uncut directories of a "
-                    "single file generation; multi-file search correctness and the crash clause are evaluated on every "
-                    "generated history of the model and of the implementation")
+    partial_note = ("the theorems cover the writer for every history (index entries point at the first line of their second, "
+                    "retention bound) and the torn-tail lemma; search correctness across files and the crash clause are "
+                    "evaluated on every generated history of the model and of the implementation")
 
     def gen(self, rng, n, tier):
         return [gen_case(rng, i) for i in range(n)]
@@ -115,7 +115,7 @@ class C19(PropBase):
     def coq(self, c):
         def op(o):
             if o[0] == "W":
-                return "LW %d [%s]" % (o[1], "; ".join("(%d, %d)" % x for x in o[2]))
+                return "LW %d [%s]" % (o[1], "; ".join("(%d, %d)" % tuple(x) for x in o[2]))
             if o[0] == "S":
                 return "LS %d %d %d" % (o[1], o[2], o[3])
             if o[0] == "M":
@@ -127,13 +127,24 @@ class C19(PropBase):
 
     def shrink_candidates(self, c):
         out = []
-        ops = c["ops"]
-        for i in range(len(ops)):
-            if ops[i][0] != "D" or i + 1 == len(ops) or ops[i + 1][0] not in ("S", "M"):
+        ops = [tuple(o) if not isinstance(o, tuple) else o for o in c["ops"]]
+        n = len(ops)
+        for k in (n // 2, 3 * n // 4, n - 1):
+            if 0 < k < n:
+                out.append(dict(c, ops=ops[:k]))
+        # drop queries, then dumps that no query follows, then writes (from the front), then single items
+        for i in range(n):
+            if ops[i][0] in ("S", "M"):
+                out.append(dict(c, ops=ops[:i] + ops[i + 1:]))
+        for i in range(n):
+            if ops[i][0] == "D" and (i + 1 == n or ops[i + 1][0] not in ("S", "M")):
+                out.append(dict(c, ops=ops[:i] + ops[i + 1:]))
+        for i in range(n):
+            if ops[i][0] in ("W", "X"):
                 out.append(dict(c, ops=ops[:i] + ops[i + 1:]))
         for i, o in enumerate(ops):
             if o[0] == "W" and len(o[2]) > 1:
-                out.append(dict(c, ops=ops[:i] + [("W", o[1], o[2][:-1])] + ops[i + 1:]))
+                out.append(dict(c, ops=ops[:i] + [("W", o[1], list(o[2])[:-1])] + ops[i + 1:]))
         return out
 
     def nontrivial(self, c, obs):
